@@ -7,4 +7,5 @@ def check(ctx, rep):
     cache.cache_4(ctx, rep, roles)
     gr.gr_9(ctx, rep)
     cache.cache_2_3(ctx, rep, roles)
+    cache.cache_5(ctx, rep)
     rep.note('Not decided: equality of the returned tree with a fresh parse.')
